@@ -600,7 +600,11 @@ read_dns_withq(int dns_fd, int tun_fd, char *buf, int buflen, struct query *q)
 			int thispartlen, dataspace, datanew;
 
 			while (1) {
-				thispartlen = strlen(buf);
+				/* buf holds buftotal bytes; it is not a string when the
+				   answer's record type is not the question's */
+				char *nul = memchr(buf, 0, buftotal);
+
+				thispartlen = nul ? (int) (nul - buf) : buftotal;
 				thispartlen = MIN(thispartlen, buftotal-bufoffset);
 				dataspace = sizeof(data) - dataoffset;
 				if (thispartlen <= 0 || dataspace <= 0)
